@@ -526,6 +526,33 @@ RANK4 = [
 RANK4_CYCLIC = [[3, 3, 3, 4], [3, 3, 3, 5], [3, 4, 3, 4], [3, 4, 3, 5], [3, 5, 3, 5]]
 
 
+INF_SPELLINGS = ["zero", "minus-three", "mixed"]
+
+
+def respell(labels, enc):
+    """The same Coxeter data with every infinite label (INF = -1) written as 0, as -3, or alternately 0 / -3
+    (symmetric positions of a matrix get the same spelling)."""
+    vals = {"zero": [0], "minus-three": [-3], "mixed": [0, -3]}[enc]
+    if labels and isinstance(labels[0], list):
+        n = len(labels)
+        out = [list(r) for r in labels]
+        k = 0
+        for i in range(n):
+            for j in range(i + 1, n):
+                if labels[i][j] == INF:
+                    out[i][j] = out[j][i] = vals[k % len(vals)]
+                    k += 1
+        return out
+    out, k = [], 0
+    for x in labels:
+        if x == INF:
+            out.append(vals[k % len(vals)])
+            k += 1
+        else:
+            out.append(x)
+    return out
+
+
 def rank4_matrices():
     out = []
     for p, q, r in RANK4:
@@ -600,7 +627,17 @@ def full_alphabet(n, seed, quick):
                     if cox_prior_ok(cox_matrix(["tri"] + list(p)), prior):
                         for g in range(3):
                             G.append(["coxeter", ["tri"] + list(p), g, prior])
+        # infinity may be written as zero or as any negative number: the same groups with other spellings
+        for tri in triangle_triples([2, 3, 4, 5, 6, 7, INF]):
+            if INF in tri:
+                for enc in INF_SPELLINGS:
+                    for g in range(3):
+                        G.append(["coxeter", ["tri"] + respell(tri, enc), g])
     if n == 3:
+        for m in rank4_noncompact():
+            for enc in INF_SPELLINGS:
+                for g in range(4):
+                    G.append(["coxeter", ["mat", respell(m, enc)], g])
         for m in rank4_matrices() + rank4_noncompact():
             for g in range(4):
                 G.append(["coxeter", ["mat", m], g])
